@@ -167,7 +167,7 @@ def prune_its_to_rc(its, radius=0, insert_hydrogens=True):
     rc = get_rc(its)
     unreachable_nodes = get_unreachable_nodes(its, rc.nodes, radius=radius)
     its_pruned = its.copy()
-    new_node_id = len(its.nodes)
+    new_node_id = max(its.nodes, default=-1) + 1
     for u in unreachable_nodes:
         if insert_hydrogens:
             for v in its.neighbors(u):
